@@ -71,6 +71,8 @@ type Conn struct {
 	// WriteFailAfter: fail client writes once this many bytes were accepted in total (<0: never).
 	WriteFailAfter int64
 	WriteErr       error
+	// OnClose is called once (without the lock) when the connection is first closed.
+	OnClose func()
 	// OnGate is called (without the lock) at gates: "write:before:<i>", "write:after:<i>", item gates.
 	OnGate func(gate string)
 
@@ -459,6 +461,9 @@ func (c *Conn) Close() error {
 	c.closed = true
 	c.mu.Unlock()
 	c.cond.Broadcast()
+	if !was && c.OnClose != nil {
+		c.OnClose()
+	}
 	if was {
 		return &net.OpError{Op: "close", Net: "sim", Err: net.ErrClosed}
 	}
